@@ -1751,6 +1751,8 @@ bool QXmppMessage::parseExtension(const QDomElement &element, QXmpp::SceMode sce
         if (checkElement(element, u"html", ns_xhtml_im)) {
             QDomElement bodyElement = element.firstChildElement(u"body"_s);
             if (!bodyElement.isNull() && bodyElement.namespaceURI() == ns_xhtml) {
+                // a second <html/> element replaces the first one instead of being written over its text
+                d->xhtml.clear();
                 QTextStream stream(&d->xhtml, QIODevice::WriteOnly);
                 bodyElement.save(stream, 0);
 
